@@ -1,8 +1,8 @@
 CONSTANTS
   Servers = {1, 2}
   MaxReq = 2
-  MinTicks = 2
-  MaxTicks = 2
+  MinTicks = 5
+  MaxTicks = 5
   Payloads = {1, 2}
   Variant = "intended"
 SPECIFICATION Spec
